@@ -4,6 +4,12 @@
 //           independent, so small values) — a concrete twin accumulating in another order than the generic member;
 //   inplace: r.MdotM(r, b), r.MdotM(a, r), r.MdotM(r, r) on non-symmetric 2x2 and 3x3 matrices (the row buffer / column
 //           buffer branch chosen by the storageLocation test) and with a rectangular left / right factor.
+//   scalar-ref: VaddS VsubS VmulS VdivS on dense and sparse vectors, MaddS MsubS MmulS MdivS on dense matrices with the
+//           SCALAR operand a reference into the receiver's own storage (r.VMULS(a, r.AT(k)), v.VDIVS(v, v.AT(0))), into
+//           the other operand's, first / middle / last element, with a = r and a fresh: the generic member re-reads the
+//           scalar on every iteration (it is overwritten when the loop reaches position k), so must the concrete one.
+//           Values are chosen so that every position written after k depends on the NEW value of the scalar and all
+//           quotients are exact in every element type (powers of two).
 package main
 
 func dElem(t string, v float64) ESpec {
@@ -16,7 +22,7 @@ func dElem(t string, v float64) ESpec {
 }
 func dObj(t, kind string, rows, cols int, vs []float64) OSpec {
 	o := OSpec{K: kind, Rows: rows, Cols: cols}
-	if kind == "dvec" {
+	if kind == "dvec" || kind == "svec" {
 		o.Cols = 0
 	}
 	for _, v := range vs {
@@ -66,5 +72,84 @@ func directedCases() []PCase {
 		out = append(out, PCase{Type: t, Kind: "dmat", G: "MdotM", C: "MDOTM", Recv: dObj(t, "dmat", 2, 2, sq2),
 			Args: []OSpec{dObj(t, "dmat", 2, 2, ot2), dObj(t, "dmat", 2, 2, ot2)}, Alias: []int{-1, 1}})
 	}
+	out = append(out, scalarRefCases()...)
 	return out
+}
+
+func scalarRefCases() []PCase {
+	var out []PCase
+	vecOps := [][2]string{{"VaddS", "VADDS"}, {"VsubS", "VSUBS"}, {"VmulS", "VMULS"}, {"VdivS", "VDIVS"}}
+	matOps := [][2]string{{"MaddS", "MADDS"}, {"MsubS", "MSUBS"}, {"MmulS", "MMULS"}, {"MdivS", "MDIVS"}}
+	for _, t := range typeNames {
+		// r and a: powers of two (exact quotients, products below 127 for int8)
+		rv := []float64{2, 4, 2, 8}
+		av := []float64{8, 4, 16, 2}
+		for _, kind := range []string{"dvec", "svec"} {
+			for _, op := range vecOps {
+				for e := 0; e < len(rv); e++ {
+					for _, aIsR := range []bool{false, true} {
+						for _, owner := range []int{0, 1} {
+							if aIsR && owner == 1 {
+								continue
+							}
+							c := PCase{Type: t, Kind: kind, G: op[0], C: op[1], Recv: dObj(t, kind, len(rv), 0, rv),
+								Args: []OSpec{dObj(t, kind, len(av), 0, av), {}}, Alias: []int{-1, -1}}
+							if aIsR {
+								c.Alias[0] = 0
+								c.Args[0] = dObj(t, kind, len(rv), 0, rv)
+							}
+							setElemRef(&c, 1, owner, e)
+							out = append(out, c)
+						}
+					}
+				}
+				if kind == "svec" {
+					// zero patterns: absent entries in r / a around the referenced entry, a reference to an absent entry
+					for _, pat := range [][2][]float64{{{2, 0, 4, 0}, {0, 4, 8, 2}}, {{0, 2, 0, 4}, {4, 0, 0, 2}}, {{4, 2, 0, 0}, {0, 0, 2, 4}}} {
+						for e := 0; e < 4; e++ {
+							c := PCase{Type: t, Kind: kind, G: op[0], C: op[1], Recv: sObj(t, 4, pat[0]),
+								Args: []OSpec{sObj(t, 4, pat[1]), {}}, Alias: []int{-1, -1}}
+							setElemRef(&c, 1, 0, e)
+							out = append(out, c)
+						}
+					}
+				}
+			}
+		}
+		mr := []float64{2, 4, 2, 8, 4, 2}
+		ma := []float64{8, 4, 16, 2, 4, 8}
+		for _, op := range matOps {
+			for e := 0; e < len(mr); e++ {
+				for _, aIsR := range []bool{false, true} {
+					for _, owner := range []int{0, 1} {
+						if aIsR && owner == 1 {
+							continue
+						}
+						c := PCase{Type: t, Kind: "dmat", G: op[0], C: op[1], Recv: dObj(t, "dmat", 2, 3, mr),
+							Args: []OSpec{dObj(t, "dmat", 2, 3, ma), {}}, Alias: []int{-1, -1}}
+						if aIsR {
+							c.Alias[0] = 0
+							c.Args[0] = dObj(t, "dmat", 2, 3, mr)
+						}
+						setElemRef(&c, 1, owner, e)
+						out = append(out, c)
+					}
+				}
+			}
+		}
+	}
+	return out
+}
+
+// sObj: a sparse vector whose zero positions are absent
+func sObj(t string, n int, vs []float64) OSpec {
+	o := OSpec{K: "svec", Rows: n}
+	for _, v := range vs {
+		if v == 0 {
+			o.E = append(o.E, ESpec{P: false})
+		} else {
+			o.E = append(o.E, dElem(t, v))
+		}
+	}
+	return o
 }
